@@ -2459,7 +2459,20 @@ impl Planner {
     fn plan_distinct(&self, distinct: &DistinctOp) -> Result<(Box<dyn Operator>, Vec<String>)> {
         let (input_op, columns) = self.plan_operator(&distinct.input)?;
         let output_schema = self.derive_schema_from_columns(&columns);
-        let operator = Box::new(DistinctOperator::new(input_op, output_schema));
+        // Column-specific distinct (Gremlin dedup): compare only the named columns when all of them
+        // resolve; otherwise the whole row.
+        let key_columns: Option<Vec<usize>> = distinct.columns.as_ref().and_then(|names| {
+            names
+                .iter()
+                .map(|n| columns.iter().rposition(|c| c == n))
+                .collect()
+        });
+        let operator: Box<dyn Operator> = match key_columns {
+            Some(keys) if !keys.is_empty() => {
+                Box::new(DistinctOperator::on_columns(input_op, keys, output_schema))
+            }
+            _ => Box::new(DistinctOperator::new(input_op, output_schema)),
+        };
         Ok((operator, columns))
     }
 
